@@ -105,10 +105,15 @@ Section TwoPass.
     exists st2, pkg_run facts annots ts1 st2 /\
       Run (fst (build_pkg_more_work st2 ts2)) (snd (build_pkg_more_work st2 ts2)) st3.
 
+  Lemma C_base a : In a (base C) <->
+    In a (base C1) \/ In a (flat_map atoms_of_trigger (filter (fun t => negb (controlled t)) ts2)).
+  Proof. unfold C, C1, pkg_csys. apply csys_of_app_ts_base. Qed.
+  Lemma C_ctld ka : In ka (ctld C) <-> In ka (ctld C1) \/ In ka (ctld (csys_of (map snd facts) annots ts2)).
+  Proof. unfold C, C1, pkg_csys. apply csys_of_app_ts_ctld. Qed.
   Lemma C1_sub_b a : In a (base C1) -> In a (base C).
-  Proof. intros H. apply csys_of_app_ts_base. auto. Qed.
+  Proof. intros H. apply C_base. auto. Qed.
   Lemma C1_sub_k ka : In ka (ctld C1) -> In ka (ctld C).
-  Proof. intros H. apply csys_of_app_ts_ctld. auto. Qed.
+  Proof. intros H. apply C_ctld. auto. Qed.
 
   Lemma pkg_run_ctl st2 : pkg_run facts annots ts1 st2 -> ctl st2 = filter controlled ts1.
   Proof.
@@ -129,10 +134,10 @@ Section TwoPass.
       - intros s e H. destruct (more_work_items _ _ _ H) as [t [Heq _]]. discriminate.
       - intros t a H Ha. destruct (more_work_items _ _ _ H) as [t' [Heq Hk]]. inversion Heq; subst t'.
         destruct Hk as [[Ht Hc]|[k [Ht [Hk Hd]]]].
-        + left. apply csys_of_app_ts_base. right. apply in_flat_map. exists t. split; auto.
+        + left. apply C_base. right. apply in_flat_map. exists t. split; auto.
           apply filter_In. split; auto. now rewrite Hc.
         + right. exists k. split.
-          * apply csys_of_app_ts_ctld. rewrite (pkg_run_ctl _ R12) in Ht. apply in_app_or in Ht.
+          * apply C_ctld. rewrite (pkg_run_ctl _ R12) in Ht. apply in_app_or in Ht.
             destruct Ht as [Ht|Ht]; apply filter_In in Ht; destruct Ht as [Ht _]; [left|right];
               apply (in_ctld_trig facts annots _ t k a); auto.
           * unfold dv in Hd. destruct (det_l (mp st2) k) as [e|] eqn:E; [|discriminate].
@@ -142,7 +147,7 @@ Section TwoPass.
         assert (Hc : controlled t = true /\ (In t ts1 \/ In t ts2)).
         { destruct Ht as [Ht|Ht]; apply filter_In in Ht; tauto. }
         destruct Hc as [Hc Hin]. unfold controlled in Hc. destruct (t_ctrl t) as [k|] eqn:E; [|discriminate].
-        exists k. split; auto. apply csys_of_app_ts_ctld.
+        exists k. split; auto. apply C_ctld.
         destruct Hin as [Hin|Hin]; [left|right]; apply (in_ctld_trig facts annots _ t k a); auto. }
     exact (J_run _ _ _ _ R3 JC).
   Qed.
@@ -156,16 +161,16 @@ Section TwoPass.
     assert (Ec : conflicts st2 = conflicts st') by reflexivity.
     assert (GC : Good C st' w).
     { intros Hc. rewrite <- Ec in Hc. destruct (G2 Hc) as [Hb1 Hk1]. constructor.
-      - intros a Ha. right. apply csys_of_app_ts_base in Ha. destruct Ha as [Ha|Ha].
+      - intros a Ha. right. apply C_base in Ha. destruct Ha as [Ha|Ha].
         + eapply Hd_mp; eauto. apply Hd_nil_work. auto.
         + apply in_flat_map in Ha. destruct Ha as [t [Ht Ha]]. apply filter_In in Ht. destruct Ht as [Ht Hcn].
           apply negb_true_iff in Hcn. left. exists t. split; auto. now apply more_work_uncontrolled.
-      - intros k a Ha Hd. right. apply csys_of_app_ts_ctld in Ha. destruct Ha as [Ha|Ha].
+      - intros k a Ha Hd. right. apply C_ctld in Ha. destruct Ha as [Ha|Ha].
         + eapply Hd_mp; eauto. apply Hd_nil_work. apply (Hk1 k a Ha). exact Hd.
         + destruct (ctld_ts2_inv _ _ Ha) as [t [Ht [Hk Hat]]].
           left. exists t. split; auto. eapply more_work_activated; eauto. }
     assert (LC : Linked C (ctl st')).
-    { intros k a Ha. cbn. rewrite (pkg_run_ctl _ R12). apply csys_of_app_ts_ctld in Ha. destruct Ha as [Ha|Ha].
+    { intros k a Ha. cbn. rewrite (pkg_run_ctl _ R12). apply C_ctld in Ha. destruct Ha as [Ha|Ha].
       - destruct (ctld_inv _ _ _ _ _ Ha) as [t [Ht [Hk Hat]]]. exists t. repeat split; auto.
         apply in_or_app. left. apply filter_In. split; auto. unfold controlled. now rewrite Hk.
       - destruct (ctld_ts2_inv _ _ Ha) as [t [Ht [Hk Hat]]]. exists t. repeat split; auto.
